@@ -31,11 +31,30 @@ pub mod proofs {
         assert!(e2[0] == y.abs());
     }
 
+    /// the frames -> gain mapping: 0 only for exactly 0 frames; for any time >= 1/8 frame the gain exp(-1/frames) is
+    /// strictly between 0 and 1 (the VALUE of powf is libm and not verified, only this range)
+    #[kani::proof]
+    pub fn c19_gain_mapping() {
+        let fa: f32 = kani::any(); let fr: f32 = kani::any();
+        kani::assume(fa >= 0.125 && fa <= 1.0e6 && fr >= 0.125 && fr <= 1.0e6);
+        let mut det: Detector<[f32; 1], _> = Detector::peak(fa, fr);
+        let (ga, gr) = det.verif_gains();
+        assert!(ga > 0.0 && ga < 1.0, "P: positive attack time must give a gain in (0,1)");
+        assert!(gr > 0.0 && gr < 1.0, "P: positive release time must give a gain in (0,1)");
+        det.set_attack_frames(0.0);
+        assert!(det.verif_gains().0 == 0.0);
+        let f2: f32 = kani::any();
+        kani::assume(f2 >= 0.125 && f2 <= 1.0e6);
+        det.set_release_frames(f2);
+        let g2 = det.verif_gains().1;
+        assert!(g2 > 0.0 && g2 < 1.0);
+    }
+
     /// the one-pole update from every envelope state and every pair of gains in [0,1):
     /// env' == d + g * (env - d) with g = attack if env < d else release; env' lies between env and d;
     /// the stored envelope is the returned one
     #[kani::proof]
-    pub fn c19_one_pole_update() {
+    pub fn c19_t_one_pole_update() {
         let mut det: Detector<[f32; 1], _> = Detector::peak(3.0, 7.0);
         let (ga, gr) = det.verif_gains();
         kani::assume(ga >= 0.0 && ga < 1.0 && gr >= 0.0 && gr < 1.0);      // any values powf may have produced in range
@@ -113,7 +132,20 @@ pub mod proofs {
             i += 1;
         }
     }
+    /// "a reset restores the all-zero state" from ANY window content: a detector built over a ring that still holds
+    /// (dyadic) samples has square_sum == 0 with a non-zero window; after reset() it must behave as freshly zeroed
+    #[kani::proof] #[kani::unwind(8)]
+    pub fn c11_b_rms_reset_from_dirty_window() {
+        let dirty: [[f32; 1]; 2] = [[dyadic(8, 8)], [dyadic(8, 8)]];
+        let mut rms: Rms<[f32; 1], [[f32; 1]; 2]> = Rms::new(rb::Fixed::from(dirty));
+        rms.reset();
+        assert!(rms.current()[0] == 0.0);
+        let x = dyadic(8, 8); let y = dyadic(8, 8); let z = dyadic(8, 8);
+        assert!(rms.next_squared([x])[0] == (x * x) / 2.0, "P: reset did not clear the window");
+        assert!(rms.next_squared([y])[0] == (y * y + x * x) / 2.0, "P: reset did not clear the window");
+        assert!(rms.next_squared([z])[0] == (z * z + y * y) / 2.0, "P: reset did not clear the window");
+    }
     #[kani::proof] #[kani::unwind(8)] pub fn c11_b_rms_n1() { rms_run::<1, 3>() }
-    #[kani::proof] #[kani::unwind(8)] pub fn c11_b_rms_n2() { rms_run::<2, 4>() }
+    #[kani::proof] #[kani::unwind(8)] pub fn c11_t_rms_n2() { rms_run::<2, 4>() }
     #[kani::proof] #[kani::unwind(9)] pub fn c11_t_rms_n3() { rms_run::<3, 5>() }
 }
